@@ -21,10 +21,17 @@ Qed.
 Lemma same_payload_trans a b c : same_payload a b -> same_payload b c -> same_payload a c.
 Proof. intros [A B] [C D]. split; congruence. Qed.
 
+Lemma process_value_rec_x v s : same_payload s (fst (process_value_rec v s)).
+Proof.
+  unfold process_value_rec, fbind. pose proof (process_value_x v s) as A.
+  destruct (process_value v s) as [s1 [e|]]; simpl in *; [exact A|].
+  destruct (negb (memN v (f_seen s))); simpl; exact A.
+Qed.
+
 Lemma process_values_x ws : forall s, same_payload s (fst (process_values ws s)).
 Proof.
   induction ws as [|v r IH]; intros s; simpl; [split; reflexivity|].
-  unfold fbind. pose proof (process_value_x v s) as A. destruct (process_value v s) as [s1 [e|]]; simpl in *; [exact A|].
+  unfold fbind. pose proof (process_value_rec_x v s) as A. destruct (process_value_rec v s) as [s1 [e|]]; simpl in *; [exact A|].
   eapply same_payload_trans; [exact A | apply IH].
 Qed.
 
@@ -63,25 +70,25 @@ Lemma fix_all_x gs : forall s, same_payload s (fst (fix_all gs s)).
 Proof.
   induction gs as [|g r IH]; intros s; simpl; [split; reflexivity|].
   unfold fbind.
-  assert (A : same_payload s (fst (fix_graph_names g (f_vx s) (f_nx s) (f_vn s) (f_nn s) (f_inits s) (f_mod s)))).
+  assert (A : same_payload s (fst (fix_graph_names g (f_own s) (f_vx s) (f_nx s) (f_vn s) (f_nn s) (f_inits s) (f_mod s)))).
   { unfold fix_graph_names. destruct (collect_names _ _ _ _) as [rv rn].
-    pose proof (fx_events_x (events_graph g) (fx_init (f_vx s) (f_nx s) rv rn (f_vn s) (f_nn s) (f_inits s) (f_mod s))) as X.
+    pose proof (fx_events_x (events_graph g) (fx_init (f_own s) (f_vx s) (f_nx s) rv rn (f_vn s) (f_nn s) (f_inits s) (f_mod s))) as X.
     exact X. }
-  destruct (fix_graph_names g (f_vx s) (f_nx s) (f_vn s) (f_nn s) (f_inits s) (f_mod s)) as [s1 [e1|]]; simpl in *; [exact A|].
+  destruct (fix_graph_names g (f_own s) (f_vx s) (f_nx s) (f_vn s) (f_nn s) (f_inits s) (f_mod s)) as [s1 [e1|]]; simpl in *; [exact A|].
   eapply same_payload_trans; [exact A | apply IH].
 Qed.
 
 (* C15_fix_only_names: for every model, whatever the outcome (Ok or Raise): the payload (everything of a value
    or node that is not its name) is unchanged; on well-formed closed models every graph also keeps exactly its
    initializer values (the structure - inputs, outputs, nodes, subgraphs - is an immutable input of the pass). *)
-Theorem fix_only_names main funcs vx nx vn nn inits :
-  let r := name_fix_pass main funcs vx nx vn nn inits in
+Theorem fix_only_names main funcs own vx nx vn nn inits :
+  let r := name_fix_pass main funcs own vx nx vn nn inits in
   f_vx (fst r) = vx /\ f_nx (fst r) = nx /\
   (WF0 vn inits -> (forall g, In g (main :: funcs) -> closed_run (events_graph g) inits) ->
      mem_equiv (f_inits (fst r)) inits).
 Proof.
-  intros r. destruct (fix_all_x (main :: funcs) (fx_init vx nx [] [] vn nn inits false)) as [A B].
-  split; [exact A|]. split; [exact B|]. intros W Hc. apply (name_fix_pass_total main funcs vx nx vn nn inits W Hc).
+  intros r. destruct (fix_all_x (main :: funcs) (fx_init own vx nx [] [] vn nn inits false)) as [A B].
+  split; [exact A|]. split; [exact B|]. intros W Hc. apply (name_fix_pass_total main funcs own vx nx vn nn inits W Hc).
 Qed.
 
 (* ---------- composition over the graphs of a model *)
@@ -107,11 +114,11 @@ Lemma fix_all_frame gs : forall s w,
   f_vn (fst (fix_all gs s)) w = f_vn s w.
 Proof.
   induction gs as [|g r IH]; intros s w W Hc Hw; simpl; [reflexivity|].
-  destruct (fix_run_total g (f_vx s) (f_nx s) (f_vn s) (f_nn s) (f_inits s) (f_mod s) W (Hc g (or_introl eq_refl)))
+  destruct (fix_run_total g (f_own s) (f_vx s) (f_nx s) (f_vn s) (f_nn s) (f_inits s) (f_mod s) W (Hc g (or_introl eq_refl)))
     as [A [B [C _]]].
-  pose proof (fix_run_frame g (f_vx s) (f_nx s) (f_vn s) (f_nn s) (f_inits s) (f_mod s) w W (Hc g (or_introl eq_refl))
+  pose proof (fix_run_frame g (f_own s) (f_vx s) (f_nx s) (f_vn s) (f_nn s) (f_inits s) (f_mod s) w W (Hc g (or_introl eq_refl))
                 (Hw g (or_introl eq_refl))) as F.
-  unfold fbind. destruct (fix_graph_names g (f_vx s) (f_nx s) (f_vn s) (f_nn s) (f_inits s) (f_mod s)) as [s1 e].
+  unfold fbind. destruct (fix_graph_names g (f_own s) (f_vx s) (f_nx s) (f_vn s) (f_nn s) (f_inits s) (f_mod s)) as [s1 e].
   simpl in *. subst e. rewrite IH; [exact F | exact B | |].
   - intros g' Hg'. eapply closed_run_equiv; [exact C|]. apply Hc. right. exact Hg'.
   - intros g' Hg' X. apply (Hw g' (or_intror Hg')). eapply run_vals_equiv; [exact C | exact X].
@@ -121,26 +128,26 @@ Lemma fix_all_frame_nodes gs : forall s a,
   (forall g, In g gs -> ~ In a (ev_nodes (events_graph g))) -> f_nn (fst (fix_all gs s)) a = f_nn s a.
 Proof.
   induction gs as [|g r IH]; intros s a Ha; simpl; [reflexivity|].
-  assert (F : f_nn (fst (fix_graph_names g (f_vx s) (f_nx s) (f_vn s) (f_nn s) (f_inits s) (f_mod s))) a = f_nn s a).
+  assert (F : f_nn (fst (fix_graph_names g (f_own s) (f_vx s) (f_nx s) (f_vn s) (f_nn s) (f_inits s) (f_mod s))) a = f_nn s a).
   { unfold fix_graph_names. destruct (collect_names _ _ _ _) as [rv rn].
     rewrite fx_events_nn; [reflexivity|]. apply Ha. left. reflexivity. }
-  unfold fbind. destruct (fix_graph_names g (f_vx s) (f_nx s) (f_vn s) (f_nn s) (f_inits s) (f_mod s)) as [s1 [e|]]; simpl in *; [exact F|].
+  unfold fbind. destruct (fix_graph_names g (f_own s) (f_vx s) (f_nx s) (f_vn s) (f_nn s) (f_inits s) (f_mod s)) as [s1 [e|]]; simpl in *; [exact F|].
   rewrite IH; [exact F|]. intros g' Hg'. apply Ha. right. exact Hg'.
 Qed.
 
 (* C15_fix_keeps_unique for the whole pass, values: the graphs of the model (main graph, functions) meet
    pairwise disjoint sets of values (functions are closed), the value is met by graph g, and no other value
    met by g carries its non-empty name. *)
-Theorem pass_keeps_unique_value l1 g l2 vx nx vn nn inits v n main funcs :
+Theorem pass_keeps_unique_value l1 g l2 own vx nx vn nn inits v n main funcs :
   main :: funcs = l1 ++ g :: l2 ->
   WF0 vn inits -> (forall g', In g' (main :: funcs) -> closed_run (events_graph g') inits) ->
   vn v = Some n -> n <> [] -> run_vals (events_graph g) inits v ->
   (forall w, w <> v -> run_vals (events_graph g) inits w -> vn w <> Some n) ->
   (forall g' w, In g' (l1 ++ l2) -> run_vals (events_graph g) inits w -> ~ run_vals (events_graph g') inits w) ->
-  f_vn (fst (name_fix_pass main funcs vx nx vn nn inits)) v = Some n.
+  f_vn (fst (name_fix_pass main funcs own vx nx vn nn inits)) v = Some n.
 Proof.
   intros Hl W Hc Hv Hn Hin Hu Hd. unfold name_fix_pass. rewrite Hl.
-  set (s0 := fx_init vx nx [] [] vn nn inits false).
+  set (s0 := fx_init own vx nx [] [] vn nn inits false).
   assert (Hc' : forall g', In g' (l1 ++ g :: l2) -> closed_run (events_graph g') (f_inits s0)) by (rewrite <- Hl; exact Hc).
   rewrite fix_all_app.
   destruct (fix_all_total l1 s0 W) as [A1 [W1 M1]].
@@ -152,14 +159,14 @@ Proof.
   unfold fbind at 1. destruct (fix_all l1 s0) as [s1 e1]. simpl in *. subst e1.
   assert (C1 : closed_run (events_graph g) (f_inits s1)).
   { eapply closed_run_equiv; [exact M1|]. apply Hc'. apply in_or_app. right. left. reflexivity. }
-  destruct (fix_run_total g (f_vx s1) (f_nx s1) (f_vn s1) (f_nn s1) (f_inits s1) (f_mod s1) W1 C1) as [A2 [W2 [M2 _]]].
-  assert (K : f_vn (fst (fix_graph_names g (f_vx s1) (f_nx s1) (f_vn s1) (f_nn s1) (f_inits s1) (f_mod s1))) v = Some n).
+  destruct (fix_run_total g (f_own s1) (f_vx s1) (f_nx s1) (f_vn s1) (f_nn s1) (f_inits s1) (f_mod s1) W1 C1) as [A2 [W2 [M2 _]]].
+  assert (K : f_vn (fst (fix_graph_names g (f_own s1) (f_vx s1) (f_nx s1) (f_vn s1) (f_nn s1) (f_inits s1) (f_mod s1))) v = Some n).
   { apply fix_keeps_unique_value_run; try assumption.
     - rewrite F1; assumption.
     - eapply run_vals_equiv; [apply mem_equiv_sym; exact M1 | exact Hin].
     - intros w Hw Hr. assert (Hr' : run_vals (events_graph g) inits w) by (eapply run_vals_equiv; [exact M1 | exact Hr]).
       rewrite (F1 w Hr'). apply Hu; assumption. }
-  unfold fbind. destruct (fix_graph_names g (f_vx s1) (f_nx s1) (f_vn s1) (f_nn s1) (f_inits s1) (f_mod s1)) as [s2 e2].
+  unfold fbind. destruct (fix_graph_names g (f_own s1) (f_vx s1) (f_nx s1) (f_vn s1) (f_nn s1) (f_inits s1) (f_mod s1)) as [s2 e2].
   simpl in *. subst e2.
   rewrite (fix_all_frame l2 s2 v W2); [exact K| |].
   - intros g' Hg'. eapply closed_run_equiv; [eapply mem_equiv_trans; [exact M2 | exact M1]|].
@@ -169,17 +176,17 @@ Proof.
 Qed.
 
 (* ... and node names: no node is met twice, the node is met by graph g only *)
-Theorem pass_keeps_unique_node l1 g l2 vx nx vn nn inits a n main funcs :
+Theorem pass_keeps_unique_node l1 g l2 own vx nx vn nn inits a n main funcs :
   main :: funcs = l1 ++ g :: l2 ->
   WF0 vn inits -> (forall g', In g' (main :: funcs) -> closed_run (events_graph g') inits) ->
   NoDup (ev_nodes (events_graph g)) ->
   nn a = Some n -> n <> [] -> In a (ev_nodes (events_graph g)) ->
   (forall b, b <> a -> In b (ev_nodes (events_graph g)) -> nn b <> Some n) ->
   (forall g' b, In g' (l1 ++ l2) -> In b (ev_nodes (events_graph g)) -> ~ In b (ev_nodes (events_graph g'))) ->
-  f_nn (fst (name_fix_pass main funcs vx nx vn nn inits)) a = Some n.
+  f_nn (fst (name_fix_pass main funcs own vx nx vn nn inits)) a = Some n.
 Proof.
   intros Hl W Hc ND Ha Hn Hin Hu Hd. unfold name_fix_pass. rewrite Hl.
-  set (s0 := fx_init vx nx [] [] vn nn inits false).
+  set (s0 := fx_init own vx nx [] [] vn nn inits false).
   assert (Hc' : forall g', In g' (l1 ++ g :: l2) -> closed_run (events_graph g') (f_inits s0)) by (rewrite <- Hl; exact Hc).
   rewrite fix_all_app.
   destruct (fix_all_total l1 s0 W) as [A1 [W1 M1]].
@@ -189,14 +196,14 @@ Proof.
   unfold fbind at 1. destruct (fix_all l1 s0) as [s1 e1]. simpl in *. subst e1.
   assert (C1 : closed_run (events_graph g) (f_inits s1)).
   { eapply closed_run_equiv; [exact M1|]. apply Hc'. apply in_or_app. right. left. reflexivity. }
-  destruct (fix_run_total g (f_vx s1) (f_nx s1) (f_vn s1) (f_nn s1) (f_inits s1) (f_mod s1) W1 C1) as [A2 _].
-  assert (K : f_nn (fst (fix_graph_names g (f_vx s1) (f_nx s1) (f_vn s1) (f_nn s1) (f_inits s1) (f_mod s1))) a = Some n).
-  { destruct (fix_graph_names g (f_vx s1) (f_nx s1) (f_vn s1) (f_nn s1) (f_inits s1) (f_mod s1)) as [s2 e2] eqn:E2.
+  destruct (fix_run_total g (f_own s1) (f_vx s1) (f_nx s1) (f_vn s1) (f_nn s1) (f_inits s1) (f_mod s1) W1 C1) as [A2 _].
+  assert (K : f_nn (fst (fix_graph_names g (f_own s1) (f_vx s1) (f_nx s1) (f_vn s1) (f_nn s1) (f_inits s1) (f_mod s1))) a = Some n).
+  { destruct (fix_graph_names g (f_own s1) (f_vx s1) (f_nx s1) (f_vn s1) (f_nn s1) (f_inits s1) (f_mod s1)) as [s2 e2] eqn:E2.
     simpl in A2. subst e2. simpl.
-    apply (fix_keeps_unique_node_run g (f_vx s1) (f_nx s1) (f_vn s1) (f_nn s1) (f_inits s1) (f_mod s1) a n ND); try assumption.
+    apply (fix_keeps_unique_node_run g (f_own s1) (f_vx s1) (f_nx s1) (f_vn s1) (f_nn s1) (f_inits s1) (f_mod s1) a n ND); try assumption.
     - rewrite F1; assumption.
     - intros b Hb Hbin. rewrite (F1 b Hbin). apply Hu; assumption. }
-  unfold fbind. destruct (fix_graph_names g (f_vx s1) (f_nx s1) (f_vn s1) (f_nn s1) (f_inits s1) (f_mod s1)) as [s2 e2].
+  unfold fbind. destruct (fix_graph_names g (f_own s1) (f_vx s1) (f_nx s1) (f_vn s1) (f_nn s1) (f_inits s1) (f_mod s1)) as [s2 e2].
   simpl in *. subst e2.
   rewrite (fix_all_frame_nodes l2 s2 a); [exact K|].
   intros g' Hg'. apply Hd; [apply in_or_app; right; exact Hg' | exact Hin].
